@@ -60,6 +60,12 @@ HOSTILE_TEXT = [
 HOSTILE_NUM = [1e-7, 1e22, -0.0, 5e-324, 2 ** 53 + 1, 0.1 + 0.2, 1e100,
                123456789012345678, 1.5, -3, 1e-320, 1.7976931348623157e308,
                0.30000000000000004, 1e15, 1e16, 123456.789e3]
+# numpy-typed writes stay below 2**53: beyond it python compares int and float
+# exactly while numpy converts the int to a double first, so a numpy-typed
+# original and its python-typed copy legitimately differ (pycel keeps integral
+# values as python ints, e.g. 1e22+1) - that is numpy's comparison, not
+# persistence
+NUMPY_NUM = [v for v in HOSTILE_NUM if abs(v) < 2 ** 53]
 # known open findings: exercised in dedicated cases with their own class key
 OPEN_TEXT = {'nel': 'a\x85b', 'nonbmp': 'smile \U0001F600', 'eq': '=A1+1'}
 EXTRA = [None, {}, {'note': 'x'}, {'note': 'x', 'k': [1, 2, {'z': None}]},
@@ -83,7 +89,7 @@ def steps_strategy(max_size=10):
     return st.lists(st.one_of(
         st.tuples(st.just('set'), idx, value),
         st.tuples(st.just('set'), idx, st.sampled_from(wbspec.SET_VALUES)),
-        st.tuples(st.just('setnp'), idx, st.sampled_from(HOSTILE_NUM)),
+        st.tuples(st.just('setnp'), idx, st.sampled_from(NUMPY_NUM)),
         st.tuples(st.just('eval'), idx),
         st.tuples(st.just('eval'), idx),
         st.tuples(st.just('evalrange'), idx)), max_size=max_size)
@@ -432,6 +438,7 @@ def check_save_sequence(rec, spec, steps):
                 models.safe_eval(model, a)
             stem = os.path.join(tmp, 'saved-model')
             history = []
+            snapshots = []
             for step in steps:
                 if step[0] == 'set':
                     apply_step(model, spec, step)
@@ -439,6 +446,13 @@ def check_save_sequence(rec, spec, steps):
                     continue
                 types = SAVE_TYPES[step[1] % len(SAVE_TYPES)]
                 history.append(types)
+                # the content is back to what an earlier save wrote, with a
+                # different content saved in between (open finding
+                # C03-stale-pickle-content-reverted)
+                snap = repr([models.safe_eval(model, a)
+                             for a in spec['inputs']])
+                reverted = snap in snapshots[:-1] and snap != snapshots[-1]
+                snapshots.append(snap)
                 if saves and writes_between:
                     interesting = True
                 saves += 1
@@ -450,7 +464,8 @@ def check_save_sequence(rec, spec, steps):
                         v2 = models.safe_eval(loaded, a)
                         if not models.same_value(v1, v2):
                             failure.append((
-                                f'save-sequence:stale-{ext}',
+                                f'save-sequence:stale-{ext}' +
+                                (':content-reverted' if reverted else ''),
                                 f'after saves {history} the {ext} file gives '
                                 f'{a} = {v2!r}, the model has {v1!r}'))
                             break
@@ -615,14 +630,17 @@ def run_shard(shard, rec):
             if n % shard['parts'] != shard['part']:
                 continue
             idx = [SAVE_TYPES.index(kinds[i]) for i in (a, b, c)]
-            for second_write in (True, False):
+            for second_write in ('other', 'none', 'back'):
+                # 'back': the third save writes the very content of the first
                 steps = [('save', idx[0]), ('set', 0, 10 + n),
                          ('save', idx[1])] + \
-                    ([('set', 1, 20 + n)] if second_write else []) + \
+                    {'other': [('set', 1, 20 + n)], 'none': [],
+                     'back': [('set', 0, 1)]}[second_write] + \
                     [('save', idx[2])]
                 check_save_sequence(rec, spec, steps)
         rec.exhaustive.append('all triples of save kinds with a write '
-                              'between the saves')
+                              'between the saves (a new value, none, or back '
+                              'to the first content)')
     elif shard['kind'] == 'saves':
         steps = st.lists(st.one_of(
             st.tuples(st.just('save'), st.integers(0, 6)),
